@@ -345,6 +345,21 @@ def install(itp):
             return AArr(shp, ('zeros',), 'float')
         return old_zeros(shape, dtype)
     np_.zeros = zeros
+    old_empty = getattr(np_, 'empty', None)
+
+    def empty(shape, dtype=None):
+        # np.empty: the content is unspecified -- a fresh uninterpreted array, equal to nothing else
+        shp = shape if isinstance(shape, (tuple, list)) else (shape,)
+        shp = tuple(pysym._toint(s) for s in shp)
+        if any(isinstance(s, P) for s in shp):
+            for s in shp:
+                if isinstance(s, P) and not itp.truth(compare('>=', s, 0)):
+                    raise SymRaise('ValueError', ('negative dimensions are not allowed',))
+            return AArr(shp, ('uninitialised-memory', itp.newname('empty')), 'float')
+        if old_empty is None:
+            raise CheckerError('np.empty of a concrete shape is not modelled here')
+        return old_empty(shape, dtype)
+    np_.empty = empty
     np_.zeros_like = lambda a: AArr(a.shape, ('zeros',), a.kind) if isinstance(a, AArr) else old_zeros(a.shape)
     np_.identity = lambda n: AArr((n, n), ('identity',), 'float')
     np_.arange = lambda n: AArr((n,), ('arange',), 'int')
